@@ -91,6 +91,15 @@ fn check1<T: Elem>(c: &mut Ctx, interp: &dyn DynInterp1<T>, spec: &Spec1<T>, qa:
         return;
     }
     let flat: Vec<T> = r.iter().copied().collect();
+    c.ev.sample(|| {
+        J::obj()
+            .set("case", c.case)
+            .set("data_dim", spec.dim_name())
+            .set("data_shape", J::arr(spec.data.shape().to_vec()))
+            .set("strategy", spec.strat.name())
+            .set("query", name.as_str())
+            .set("result_shape", J::arr(r.shape().to_vec()))
+    });
     // element-wise agreement with interp / interp_scalar / interp_into
     for (k, &q) in qvals.iter().enumerate() {
         let one = match interp.one(q) {
